@@ -101,10 +101,13 @@ def status_floor(ref, program):
     if (program.get("cfg") or {}).get("dry_run"):
         return {}
     floor = {}
-    faultless = not program.get("hook_faults") and not program.get("cleanups")
+    kinds = set(k for _i, k in program.get("hook_faults") or []) | set(k for _h, _i, k in program.get("hook_faults_named") or [])
+    # hooks / cleanups that raise an ordinary exception: the reference model knows which element owns each of them,
+    # every OTHER scenario whose steps all ran and passed has passed (an error must not wander to a neighbour)
+    faultless = not (kinds - set(["Exception", "AssertionError", "Exception0", "AssertionError0"]))
     for name, statuses in ref.steps.items():
         if faultless and statuses and all(x in ("passed", "pending_warn") for x in statuses):
-            floor[name] = "passed"      # every step ran and passed, no hook / cleanup fault anywhere
+            floor[name] = "passed"      # every step ran and passed; hook / cleanup faults of this scenario: see below
         for x in statuses or []:
             # the first step with a problem decides (later undefined steps are only discovered)
             if x in ERROR_CLASS:
